@@ -12,7 +12,7 @@ open Rpki.Der Rpki.CertDer Rpki.CrlDer Rpki.CertEnc Rpki.Consts
 /-- the reader of one CRL extension on what `encode_extension(oid, false, value)` writes -/
 theorem crlExtension_aki (e : CrlExts) (k : Bytes) (hk : k.length = 20) (he : e.aki = none) :
     crlExtension e (akiBody k) = some { e with aki := some k } := by
-  unfold crlExtension akiBody extBody
+  unfold crlExtension crlExtValue akiBody extBody
   rw [List.append_assoc, takeOid_tlv oidAuthorityKeyId _ (by decide)]
   have hb : takeOptBool (tlv tagOctetString (tlv tagSeq (tlv 0x80 k))) = .absent := by
     unfold takeOptBool
@@ -26,7 +26,7 @@ theorem crlExtension_aki (e : CrlExts) (k : Bytes) (hk : k.length = 20) (he : e.
 
 theorem crlExtension_number (e : CrlExts) (n : Bytes) (hn : X509.VS n) (he : e.number = none) :
     crlExtension e (numberBody n) = some { e with number := some n } := by
-  unfold crlExtension numberBody extBody
+  unfold crlExtension crlExtValue numberBody extBody
   rw [List.append_assoc, takeOid_tlv oidCrlNumber _ (by decide)]
   have hb : takeOptBool (tlv tagOctetString (tlv tagInt (X509.encodeContent n))) = .absent := by
     unfold takeOptBool
@@ -142,7 +142,7 @@ theorem takeCrl_encodeCrl (d : CrlD) (h : WF d) (hi : Forest d.issuer) (signatur
             · unfold akiBody; exact forest_extBody _ _ _
             · unfold numberBody; exact forest_extBody _ _ _)))
   obtain ⟨body, hb, hf⟩ := hbody
-  unfold takeCrl encodeCrl
+  unfold takeCrl crlInner encodeCrl
   rw [AsDer.takeCons_tlv' tagSeq _ rest (by decide) (by decide)]
   dsimp only
   have hne : encodeTbsCrl d ++ sigAlgEnc ++ tlv tagBitString (0 :: signature) ≠ [] := by
